@@ -10,7 +10,7 @@ differential run of generated schema statements (`harness/src/ddl.rs`).
 
 * `ddl_safe`, `ddl_read`: **lexical well-formedness** — for every schema statement whose pieces are
   individually well-formed (`contentOK`: no panic marker, representable strings, caller-supplied raw
-  text only as digit strings), the engine's lexer reads the rendered text exactly as the sequence
+  text only when non-empty and free of quote characters and marks), the engine's lexer reads the rendered text exactly as the sequence
   of items the statement was written from: every declared name as one quoted identifier (C04),
   every comment / enum variant / default string as one string literal (C03), nothing glued.
 * `create_items`: **completeness and order** of `CREATE TABLE` — the parenthesised body is the
